@@ -393,4 +393,53 @@ PROPS = {
         "unproved": [],
         "assumes": ["argparse and strftime behave as documented"],
     },
+    "C09": {
+        "level_text": "Kernel-checked theorems about the normalising preamble (written once in the model, "
+                      "tied to each public function by calling the real code with every spelling): zone "
+                      "by name ≡ by object; named depression ≡ degrees; datetime-as-date means its "
+                      "calendar date in its own zone, which becomes the output zone; omitted date = "
+                      "today in the requested zone; two zones agreeing at the candidate instants give "
+                      "the same result (any transit function); elevation > 90 ≡ setting at 180 − it.",
+        "level_note": "The zone database is an uninterpreted `resolve`; the clock is a parameter `now` "
+                      "(the harness freezes now/today as seen by sun.py and moon.py). Coordinates: C16.",
+        "lean_modules": ["Astral.Props.C09"],
+        "theorems": [
+            "Astral.C09.name_or_object", "Astral.C09.event_name_or_object", "Astral.C09.tae_name_or_object",
+            "Astral.C09.moon_name_or_object", "Astral.C09.named_depression", "Astral.C09.datetime_as_date",
+            "Astral.C09.default_date", "Astral.C09.event_zone", "Astral.C09.rematch_congr",
+            "Astral.C09.dawn_same_offsets", "Astral.C09.sunrise_same_offsets",
+            "Astral.C09.sunset_same_offsets", "Astral.C09.dusk_same_offsets", "Astral.C09.elevation_fold",
+        ],
+        "groups": [G("corr_norm", "norm", 3500, 80000), G("corr_geo", "dms", 1500, 20000),
+                   G("corr_sun", "sun_events", 1500, 30000)],
+        "unproved": [],
+        "assumes": ["zoneinfo resolves a name to the zone the harness tabulated"],
+    },
+    "C20": {
+        "level_text": "partial: (1) kernel-checked (decide +kernel) purity theorem over an effect table "
+                      "REGENERATED from the AST of /repo/src/astral on every run: no public sun/moon "
+                      "function, nor anything it calls in the package, writes module state, mutates an "
+                      "argument, keeps hidden state (functools caches, mutable defaults), reads the "
+                      "environment or does I/O — only the clock, through now(). (2) theorems that a raw "
+                      "'math domain error' never escapes dawn/dusk/time_at_elevation and that the moon "
+                      "date logic has only the documented outcomes. (3) the model's Float instance and "
+                      "the code agree on results and error kinds on an extreme-argument stream.",
+        "level_note": "The effect extractor (harness/effects.py) is a hand-written over-approximation and "
+                      "is trusted; thread interleavings and the TZ variable cannot be expressed in a pure "
+                      "model and are covered by the effect theorem plus perturbation runs in the search. "
+                      "Overflow cannot be exhibited at α := ℝ; it is covered by the Float correspondence.",
+        "lean_modules": ["Astral.Props.C20"],
+        "generators": ["effects"],
+        "theorems": ["Astral.C20.pure_by_effects", "Astral.C20.public_nonempty",
+                     "Astral.C20.no_raw_domain_error", "Astral.C20.dawn_no_domain_error",
+                     "Astral.C20.dusk_no_domain_error", "Astral.C20.tae_no_domain_error",
+                     "Astral.C13.moonWrapper_outcomes"],
+        "groups": [G("corr_sun", "sun_extreme", 4000, 100000), G("corr_sun", "sun_events", 2500, 50000),
+                   G("corr_sun", "sun_angles", 2500, 50000), G("corr_moon", "moon_riseset", 1500, 30000),
+                   G("corr_moon", "moon_angles", 1500, 30000)],
+        "unproved": ["totality of the float chain at extreme magnitudes (ℝ cannot overflow)",
+                     "a full 'only documented ValueErrors' theorem for every sun function at α := ℝ"],
+        "assumes": ["soundness of the effect extraction for the Python subset astral uses"],
+        "trusted_extra": ["harness/effects.py (static effect summary, over-approximation)"],
+    },
 }
